@@ -72,6 +72,9 @@ def main():
         pid = f'C{i:02d}'
         if pid in TEXT and os.path.exists(os.path.join(V, 'vt', 'workloads', pid.lower() + '.py')):
             tech, text, note = TEXT[pid]
+            tech += ('; histories on reused objects (state handed out or cached earlier, then operations that could detach it); references independent of the code under test '
+                     '(harness-side models built from the package\'s data objects); a raise is a refusal only where the harness\'s own model of the inputs warrants it, otherwise reported; '
+                     'recorded findings keyed by input class with rate bounds against reach counters')
             if pid not in ('C07', 'C10'):
                 tech += '; plus ambient monitors: the same oracles attached to the real classes while the repository\'s own 215 tests and doctests run (one extra shard, vt/ambient.py)'
             checks.append({
